@@ -41,6 +41,12 @@ pub const MID_ROOTS: &[&str] = &[
     "4k3/8/8/3pP3/2K5/8/8/8 w - d6 0 2",
     // en passant while a slider checks through the vacated origin square
     "8/8/8/8/3Ppk2/8/8/2B1K3 b - d3 0 1",
+    // one ply BEFORE a double push that uncovers a slider check / allows an en-passant capture
+    "8/8/8/8/4pk2/8/3P4/2B1K3 w - - 0 1",
+    "4k3/3p4/8/4P3/8/8/8/3RK3 b - - 0 1",
+    "2b1k3/3p4/8/4P3/8/7K/8/8 b - - 0 1",
+    "3r3k/4p3/8/3P1P2/8/8/8/3K4 b - - 0 1",
+    "1k6/8/8/8/1p1p4/8/2P5/1Q5K w - - 0 1",
     // Chess960 castling geometry: king or rook not moving, swapping, pinned castling rook,
     // attacked b-file, inner rook, both colours
     "4k3/8/8/8/8/8/8/6KR w H - 0 1",
@@ -67,6 +73,51 @@ pub const MID_ROOTS: &[&str] = &[
     "4k3/4r3/8/q7/1P6/2N5/3PB3/r2BK2q w - - 0 1",
     "Q2bk2R/3p4/2N5/1P6/B7/8/4R3/4K3 b - - 0 1",
 ];
+
+/// Curated game lines from real start positions (Scharnagl numbers; 518 = orthodox). Every prefix
+/// is a root, so every root is provably reachable by legal play.
+pub const LINES: &[(u32, u32, &str)] = &[
+    // a white double push uncovering a bishop check (en-passant square + slider check through the origin)
+    (518, 518, "a2a3 d7d6 h2h3 e8d7 h3h4 d7c6 g2g3 c6b5 e2e4 b5b6 e4e5 f7f5 e5f6"),
+    // the mirrored case for Black
+    (518, 518, "d2d3 a7a6 e1d2 h7h6 d2c3 h6h5 c3b4 e7e5 b4b3 e5e4 f2f4 e4f3"),
+    // en passant available, declined, and rights lost by rook/king moves
+    (518, 518, "e2e4 a7a6 e4e5 d7d5 h2h4 f7f5 e5f6 g7f6 h1h3 a8a7 h3a3 e8f7 e1e2 f7g7"),
+    // castling on both wings for both sides
+    (518, 518, "e2e4 e7e5 g1f3 g8f6 f1c4 f8c5 e1h1 e8h8 d2d3 d7d6"),
+    (518, 518, "d2d4 d7d5 b1c3 b8c6 c1f4 c8f5 d1d2 d8d7 e1a1 e8a8 d2e1 d7e8"),
+    // a pawn promoting with capture on a right's square
+    (518, 518, "a2a4 b7b5 a4b5 a7a6 b5a6 c8b7 a6b7 b8c6 b7a8q d8a8"),
+    (518, 518, "h2h4 g7g5 h4g5 h7h6 g5h6 g8f6 h6h7 f6g8 h7g8n h8g8"),
+    // fool's mate, scholar's mate
+    (518, 518, "f2f3 e7e5 g2g4 d8h4"),
+    (518, 518, "e2e4 e7e5 d1h5 b8c6 f1c4 g8f6 h5f7"),
+    // Chess960: a double push uncovering a long-diagonal bishop (start 1 = BQNBNRKR)
+    (1, 1, "h2h3 g7g6 h3h4 g8g7 b2b4 g7g8 b4b5 c7c5 b5c6"),
+    // Chess960 starts 0 (BBQNNRKR) and 959 (RKRNNQBB)
+    (0, 0, "e1d3 e8d6 d1e3 d8e6 g2g3 g7g6"),
+    (959, 959, "d1e3 d8e6 e1d3 e8d6 f2f3 f7f6"),
+    // double Chess960 with different set-ups
+    (518, 0, "e2e4 e8d6 g1f3 d8e6 f1c4 g7g6 e1h1 c7c5"),
+];
+
+pub fn line_roots(sink: &Sink) -> Vec<(RootDesc, Board)> {
+    let mut out = Vec::new();
+    for (w, b, line) in LINES {
+        let moves: Vec<String> = line.split_whitespace().map(|s| s.to_string()).collect();
+        for n in 0..=moves.len() {
+            let rd = RootDesc::Line(*w, *b, moves[..n].to_vec());
+            match rd.board() {
+                Ok(bd) => out.push((rd, bd)),
+                Err(e) => {
+                    sink.note(format!("line root skipped: {}", e));
+                    break;
+                }
+            }
+        }
+    }
+    out
+}
 
 pub const CLOCK_BASES: &[&str] = &[
     "r3k2r/p1ppqpb1/bn2pnp1/3PN3/1p2P3/2N2Q1p/PPPBBPPP/R3K2R",
@@ -569,6 +620,154 @@ impl RawUniverse for Checks {
     }
 }
 
+/// Double-check universe: the mover's king on a few squares, every pair of enemy attackers from
+/// {N, B, R, Q, P} on all squares that really gives a DOUBLE check, plus none or one further piece of
+/// the mover (which might seem able to capture / interpose) on every empty square.
+pub struct DoubleCheck {
+    pub kings: Vec<Sq>,
+    pub own_kinds: Vec<Kind>,
+}
+impl RawUniverse for DoubleCheck {
+    fn name(&self) -> String {
+        format!("S-DCHECK(kings={},own={})", self.kings.len(), self.own_kinds.len())
+    }
+    fn bounds(&self) -> Value {
+        json!({"mover_king_squares": self.kings, "mover_colours": 2, "checkers": "every pair of enemy N B R Q P on all squares giving double check",
+               "own_extra": format!("none or one of {:?} on every empty square", self.own_kinds)})
+    }
+    fn parts(&self) -> usize {
+        self.kings.len() * 2
+    }
+    fn part(&self, i: usize, f: &mut dyn FnMut(Pos)) {
+        let c = Col::ALL[i % 2];
+        let k = self.kings[i / 2];
+        let them = c.other();
+        let ek = [63u8, 56, 7, 0]
+            .into_iter()
+            .find(|&e| (refmodel::file_of(e) as i32 - refmodel::file_of(k) as i32).abs() > 1 || (refmodel::rank_of(e) as i32 - refmodel::rank_of(k) as i32).abs() > 1)
+            .unwrap();
+        let mut base = Pos::empty();
+        base.stm = c;
+        put(&mut base, k, Kind::K, c);
+        put(&mut base, ek, Kind::K, them);
+        for code1 in 0..5 * 64usize {
+            let (k1, s1) = (NONKING[code1 / 64], (code1 % 64) as Sq);
+            if base.sq[s1 as usize].is_some() {
+                continue;
+            }
+            for code2 in code1 + 1..5 * 64usize {
+                let (k2, s2) = (NONKING[code2 / 64], (code2 % 64) as Sq);
+                if s2 == s1 || base.sq[s2 as usize].is_some() {
+                    continue;
+                }
+                let mut p = base.clone();
+                put(&mut p, s1, k1, them);
+                put(&mut p, s2, k2, them);
+                if p.checkers().len() < 2 {
+                    continue;
+                }
+                f(p.clone());
+                for &ok in &self.own_kinds {
+                    for s in 0..64u8 {
+                        if p.sq[s as usize].is_none() {
+                            let mut q = p.clone();
+                            put(&mut q, s, ok, c);
+                            f(q);
+                        }
+                    }
+                }
+            }
+        }
+    }
+}
+
+/// Two-lines universe for the incremental checker/pin bookkeeping: the enemy king on a few squares;
+/// on each of two different lines through it a slider of the mover (R or B by line type, or Q) at
+/// every distance >= 2, with nothing or exactly one blocker (own N / own B / own P / enemy N / enemy
+/// P) on every square in between. The mover is to move; its moves (explored one ply deep) turn
+/// blockers into discovered checks, double checks and pins in every combination.
+pub struct TwoLines {
+    pub enemy_kings: Vec<Sq>,
+}
+const DIRS8: [(i32, i32); 8] = [(0, 1), (1, 1), (1, 0), (1, -1), (0, -1), (-1, -1), (-1, 0), (-1, 1)];
+impl TwoLines {
+    fn line_configs(&self, p: &Pos, ek: Sq, dir: (i32, i32), c: Col) -> Vec<Vec<(Sq, Kind, Col)>> {
+        let mut squares = Vec::new();
+        let mut cur = ek;
+        while let Some(n) = refmodel::step(cur, dir.0, dir.1) {
+            squares.push(n);
+            cur = n;
+        }
+        let ortho = dir.0 == 0 || dir.1 == 0;
+        let slider_kinds = if ortho { [Kind::R, Kind::Q] } else { [Kind::B, Kind::Q] };
+        let blockers: [(Kind, bool); 5] = [(Kind::N, true), (Kind::B, true), (Kind::P, true), (Kind::N, false), (Kind::P, false)];
+        let mut out = Vec::new();
+        for (di, &ssq) in squares.iter().enumerate().skip(1) {
+            if p.sq[ssq as usize].is_some() {
+                continue;
+            }
+            for sk in slider_kinds {
+                out.push(vec![(ssq, sk, c)]);
+                for &bsq in &squares[..di] {
+                    if p.sq[bsq as usize].is_some() {
+                        continue;
+                    }
+                    for (bk, own) in blockers {
+                        if bk == Kind::P && (refmodel::rank_of(bsq) == 0 || refmodel::rank_of(bsq) == 7) {
+                            continue;
+                        }
+                        // an own bishop on a diagonal line would itself be a checker: keep it, the
+                        // builder simply rejects positions where the side not to move is in check
+                        out.push(vec![(ssq, sk, c), (bsq, bk, if own { c } else { c.other() })]);
+                    }
+                }
+            }
+        }
+        out
+    }
+}
+impl RawUniverse for TwoLines {
+    fn name(&self) -> String {
+        format!("S-2LINES(kings={})", self.enemy_kings.len())
+    }
+    fn bounds(&self) -> Value {
+        json!({"enemy_king_squares": self.enemy_kings, "mover_colours": 2, "line_pairs": 28, "per_line": "slider R|B (by line type) or Q at every distance >= 2, with no blocker or one blocker (own N, own B, own P, enemy N, enemy P) on every square between"})
+    }
+    fn parts(&self) -> usize {
+        self.enemy_kings.len() * 2 * 8
+    }
+    fn part(&self, i: usize, f: &mut dyn FnMut(Pos)) {
+        let d1 = i % 8;
+        let c = Col::ALL[(i / 8) % 2];
+        let ek = self.enemy_kings[i / 16];
+        let mut base = Pos::empty();
+        base.stm = c;
+        put(&mut base, ek, Kind::K, c.other());
+        for d2 in d1 + 1..8 {
+            for l1 in self.line_configs(&base, ek, DIRS8[d1], c) {
+                let mut p1 = base.clone();
+                for &(s, k, col) in &l1 {
+                    put(&mut p1, s, k, col);
+                }
+                for l2 in self.line_configs(&p1, ek, DIRS8[d2], c) {
+                    let mut p2 = p1.clone();
+                    for &(s, k, col) in &l2 {
+                        put(&mut p2, s, k, col);
+                    }
+                    // the mover's king: first far square that is free and not adjacent to the enemy king
+                    let ok = [0u8, 7, 56, 63, 1, 62].into_iter().find(|&q| {
+                        p2.sq[q as usize].is_none() && ((refmodel::file_of(q) as i32 - refmodel::file_of(ek) as i32).abs() > 1 || (refmodel::rank_of(q) as i32 - refmodel::rank_of(ek) as i32).abs() > 1)
+                    });
+                    if let Some(ok) = ok {
+                        put(&mut p2, ok, Kind::K, c);
+                        f(p2);
+                    }
+                }
+            }
+        }
+    }
+}
+
 /// All one-edit neighbours of a corpus of accepted boards ("one deviation from a valid state").
 pub struct Edit {
     pub corpus: Vec<Pos>,
@@ -671,6 +870,23 @@ pub fn corpus_positions(quick: bool, sink: &Sink) -> Vec<Pos> {
         }
     }
     out
+}
+
+/// every `stride`-th placement of the two kings (in enumeration order) — a deterministic sub-family
+pub fn king_pairs_stride(stride: usize) -> Vec<(Sq, Sq)> {
+    let mut v = Vec::new();
+    let mut i = 0usize;
+    for a in 0..64u8 {
+        for b in 0..64u8 {
+            if a != b {
+                if i % stride == 0 {
+                    v.push((a, b));
+                }
+                i += 1;
+            }
+        }
+    }
+    v
 }
 
 pub fn six_king_placements() -> Vec<(Sq, Sq)> {
